@@ -660,6 +660,10 @@ example : ∀ w, Codec.Val.tag (.i64 7) = Codec.Val.tag w → Codec.valueIs (.nu
 -- 1<<60 as text, end to end
 example : Codec.valueIs (.num (String.ofList "1152921504606846976".toList)) (.f64 ((4877398396442247168 : Nat) : Int)) = true :=
   C04_schema_exact_int_text_accepted _ 4877398396442247168 8 (by decide) (by decide) (by decide) (by decide) (by decide)
+-- hypotheses of C04_schema_constraints_exact / C04_schema_keys_closed are met (and can fail): evaluated, tests
+#guard (match Codec.checkCons (some (.obj [(Codec.sbytes "index", .bool true), (Codec.sbytes "unique", .bool true)])) { index := true, unique := true } "f" with | .ok () => true | _ => false)
+#guard (match Codec.checkCons (some (.obj [(Codec.sbytes "index", .bool true)])) { index := true, unique := true } "f" with | .ok () => false | _ => true)
+#guard (match Codec.keysWithin (.obj [(Codec.sbytes "indexx", .bool true)]) ["index", "unique", "upper", "lower"] "f" with | .ok () => false | _ => true)
 -- -0.1
 example : Codec.decIsKey ⟨true, 1, -1⟩ (-4591870180066957722) = true := by decide
 
